@@ -34,6 +34,16 @@ func checkC01(c *Ctx) {
 	c.newickGuards(wn)
 	c.newickParens(wn)
 	c.newickFloats([]*FuncInfo{wt, wn}, []*FuncInfo{pi, pp, si})
+	c.Decides("UNREAD-RESCAN: the Newick lexer puts the rune it has read back before handing over to a helper that reads the token again (no first character of a label, number or comment word is lost); READLINE-PREFIX: the line readers the Newick text goes through treat the pieces of a long line as one line")
+	c.unreadBeforeRescan("UNREAD-RESCAN", c.Func("io/newick", "Scanner", "Scan"), "the same tip and internal-node names")
+	c.Floor("UNREAD-RESCAN", 1)
+	c.readLinePrefix("READLINE-PREFIX", c.AllFuncs("io/fileutils", "io/utils"), "writing that tree again gives byte-identical text")
+	c.Floor("READLINE-PREFIX", 2)
+	c.Decides("SEPARATOR: the comma between the children the Newick writer writes is guarded by a count of children written, never by the position in the neighbour list (which also holds the parent, anywhere); WHO-MAY-CALL: the raw token read of the Newick parser (white space included) is called only by scanIgnoreWhitespace and consumeComment")
+	c.separatorByCount("SEPARATOR", c.Func("tree", "Node", "Newick"), "writing that tree again gives byte-identical text")
+	c.Floor("SEPARATOR", 1)
+	c.whoMayCall("WHO-MAY-CALL", c.Func("io/newick", "Parser", "scan"), map[string]string{"scanIgnoreWhitespace": "skips the white-space token itself", "consumeComment": "a comment's text keeps its blanks"}, "reading back gives the same tree")
+	c.Floor("WHO-MAY-CALL", 2)
 	c.Decides("TRIM-WS: the Newick reader (package io/newick) removes nothing but white space from the texts it reads: every strings.Trim*/Replace* call there is TrimSpace or has a constant white-space cut set")
 	if nt, _ := c.trimWhiteSpaceOnly("TRIM-WS", c.AllFuncs("io/newick"), "the same tip and internal-node names"); nt == 0 {
 		c.Undecided("TRIM-WS", "scan", token.NoPos, "no trimming call seen in io/newick (the TrimSpace of tip names was the instance confirmed by hand)")
